@@ -157,7 +157,7 @@ def run(ctx):
         "miekg/dns Pack/Unpack round-trip on the messages used; Msg.Copy is a deep copy",
         "fake upstreams: c09ScriptFwd honours DoUDP's contract (TC=1 => ErrDNSTruncated) which stream c09udp ties to the real DoUDP",
         "testing/synctest virtual time (timeouts of 5 s / 8 s pass without wall-clock waiting)",
-        "the UDP write path sendRuntimeTrackedPkt (raw sockets) is not executed: replies are observed through dnsmessage.ResponseWriter",
+        "the UDP packet-send path is exercised with a pre-injected loopback Anyfrom socket and real time (oracle on id/question only, races sought by crowds of coalesced waiters, not by schedule control)",
     ]
     ctx.prove(["DaeVerif.C09.Props"], ["DaeVerif.C09.Props"], ["DaeVerif/C09/*.lean"], extra_targets=["c09drv"])
     ctx.required_theorems(REQUIRED)
